@@ -327,7 +327,7 @@ impl Property for C04 {
     type Case = Case;
     const ID: &'static str = "C04";
     fn cases(tier: Tier) -> u64 {
-        tier.pick(6_000, 250_000)
+        tier.pick(24_000, 400_000)
     }
     fn strategy(tier: Tier) -> BoxedStrategy<Case> {
         let n = tier.pick(40usize, 120usize);
